@@ -41,7 +41,8 @@ Cases(u) ==
     [] Kind = "event" -> {[kind |-> "event", s |-> s] : s \in UpTo(EvCases, 2) \ {<<>>}}
     [] Kind = "quant" -> {[kind |-> "quant", s |-> s] : s \in UpTo(QCases, 2) \ {<<>>}}
     [] Kind = "ens"   -> {[kind |-> "ens", s |-> <<e, f>>] : e \in Ensembles, f \in Ensembles}
-    [] Kind = "pit"   -> {[kind |-> "pit", s |-> s] : s \in UpTo(PitV, 3) \ {<<>>}}
+    \* PIT vectors, also with missing values: the statistics are those of the valid values (none at all: no statistic)
+    [] Kind = "pit"   -> {[kind |-> "pit", s |-> s] : s \in UpTo(PitV \cup {NaN}, 3) \ {<<>>}}
 
 T1 == R(1)
 T2 == R(2)
@@ -67,8 +68,9 @@ Emit ==
                                anyMissing |-> [k \in DOMAIN c.s |-> HasNaN(c.s[k])],
                                lo |-> [k \in DOMAIN c.s |-> IF Members(c.s[k]) = <<>> THEN "nan" ELSE J(MinSeq(Members(c.s[k])))],
                                hi |-> [k \in DOMAIN c.s |-> IF Members(c.s[k]) = <<>> THEN "nan" ELSE J(MaxSeq(Members(c.s[k])))]]))
-    [] c.kind = "pit" -> PrintT(ToJson([kind |-> "pit", pit |-> JS(c.s), dev |-> PitHistDev(c.s), slope |-> PitHistSlope(c.s),
-                               shape |-> PitHistShape(c.s), mean |-> Q(MeanSeq(c.s)), counts |-> PitCounts(c.s)]))
+    [] c.kind = "pit" -> LET v == SelectSeq(c.s, LAMBDA x : ~IsNaN(x)) IN
+                         PrintT(ToJson([kind |-> "pit", pit |-> JS(c.s), dev |-> IF v = <<>> THEN Undef ELSE PitHistDev(v), slope |-> IF v = <<>> THEN Undef ELSE PitHistSlope(v),
+                               shape |-> IF v = <<>> THEN Undef ELSE PitHistShape(v), mean |-> IF v = <<>> THEN Undef ELSE Q(MeanSeq(v)), counts |-> PitCounts(v)]))
 Init == c \in Cases(0) /\ phase = "case"
 Evaluate == phase = "case" /\ phase' = "emitted" /\ c' = c /\ Emit
 Next == Evaluate
@@ -83,7 +85,7 @@ InvEventComplement == c.kind = "event" =>
    LET a == EventPE(c.s, "below=", T1, T2)  b == EventPE(c.s, "above", T1, T2) IN Len(a) = Len(b) /\ (Len(a) > 0 => BsV(a) = BsV(b))
 InvEnsMonotone == c.kind = "ens" => \A k \in DOMAIN c.s : \A j \in 1..(Len(EnsThresholds) - 1) :
    LET x == EnsProb(c.s[k], EnsThresholds[j])  y == EnsProb(c.s[k], EnsThresholds[j + 1]) IN IsNaN(x) \/ (Le(x, y) /\ Ge(x, Zero) /\ Le(y, One))
-InvPitCounts == c.kind = "pit" => SumInts(PitCounts(c.s)) = Len(c.s)
+InvPitCounts == c.kind = "pit" => LET v == SelectSeq(c.s, LAMBDA x : ~IsNaN(x)) IN SumInts(PitCounts(v)) = Len(v)
 \* ---- witnesses against vacuity (tools/vacuity.py): each is the NEGATION of a lemma's antecedent and must be VIOLATED by some enumerated case ----
 W_OneValuePerBin == ~(c.kind = "brier" /\ Len(c.s) >= 2 /\ OneValuePerBin(c.s) /\ c.s[1][1] # c.s[2][1])
 W_SeveralPerBin  == ~(c.kind = "brier" /\ ~OneValuePerBin(c.s))
